@@ -210,6 +210,21 @@ func (p *parser) skipItem(i, hi int) int {
 	return hi
 }
 
+// unknownEnd returns the end of the unknown chunk starting at i: a lone
+// punctuation token, a bracket group, or a whole declaration (skipItem).
+func (p *parser) unknownEnd(i, hi int) int {
+	if i >= hi {
+		return hi
+	}
+	if t := p.toks[i]; t.Kind == KindPunct {
+		if t.Text == "(" || t.Text == "[" || t.Text == "{" {
+			return p.match[i] + 1
+		}
+		return i + 1
+	}
+	return p.skipItem(i, hi)
+}
+
 // skipAnnotations skips `@a`, `@a.b`, `@a(args)` starting at i.
 func (p *parser) skipAnnotations(i, hi int) int {
 	for i < hi && p.toks[i].punct("@") && p.tok(i+1).Kind == KindIdent {
@@ -243,7 +258,7 @@ func (p *parser) topLevel() {
 			i = next
 			continue
 		}
-		end := p.skipItem(i, n)
+		end := p.unknownEnd(i, n)
 		if end <= start {
 			end = start + 1
 		}
@@ -459,7 +474,7 @@ func (p *parser) members(lo, hi int, className string) members {
 			i = next
 			continue
 		}
-		end := p.skipItem(i, hi)
+		end := p.unknownEnd(p.skipAnnotations(i, hi), hi)
 		if end <= start {
 			end = start + 1
 		}
@@ -683,7 +698,7 @@ func (p *parser) function(i, hi int, mods map[string]bool) (*Function, int, bool
 		return nil, 0, false
 	}
 	fn.Name = p.toks[nameIdx].Text
-	if reserved[fn.Name] {
+	if reserved[fn.Name] || notReturnType[fn.ReturnType] {
 		return nil, 0, false
 	}
 	open := nameIdx + 1
@@ -723,6 +738,12 @@ func (p *parser) function(i, hi int, mods map[string]bool) (*Function, int, bool
 		return fn, k + 1, true
 	}
 	return nil, 0, false
+}
+
+// notReturnType are the words that, in front of `name(`, are not a return type.
+var notReturnType = map[string]bool{
+	"get": true, "set": true, "operator": true, "factory": true, "external": true, "static": true,
+	"abstract": true, "covariant": true, "late": true, "required": true, "typedef": true,
 }
 
 var paramModifiers = map[string]bool{
